@@ -384,6 +384,30 @@ def merge_structure(P, rep, rule="MERGE"):
             okc = True
     if not okc:
         problems.append("corner points are not entered as (default, x, y)")
+    # an entry without points replaces the corner defaults only: result.first[0 .. addition_points.size())
+    fills = []
+    for x in F.walk():
+        if x.get("k") == "BinaryOperator" and x.get("op") == "=" and R(x["c"][1]) == "value":
+            loop = astq.enclosing(F, x, ("ForStmt", "CXXForRangeStmt", "WhileStmt"))
+            if loop is None:
+                continue
+            sub = astq.subscript(x["c"][0])
+            tgt = R(sub[0]) if sub else R(x["c"][0])
+            if loop.get("k") == "ForStmt" and sub is not None and tgt == "result.first" and "coordinate_pair_i" not in R(sub[1]):
+                fills.append((loop, x, "%s ; %s" % (R(loop["c"][0]) if loop["c"][0] else "", R(loop["c"][1])), R(sub[1])))
+            elif loop.get("k") == "CXXForRangeStmt" and "result.first" in R(loop["c"][1]):
+                fills.append((loop, x, "range-for over %s" % R(loop["c"][1]), None))
+    if len(fills) != 1:
+        problems.append("%d loops fill in the value of an entry without points (1 expected)" % len(fills))
+    else:
+        loop, x, shape, idx = fills[0]
+        from .layout import forward_loop
+        okf = False
+        if loop.get("k") == "ForStmt":
+            okl, iv, bound = forward_loop(P, F, loop)
+            okf = bool(okl) and bound is not None and R(bound) == "addition_points.size()" and idx == P.d(iv).get("n")
+        if not okf:
+            problems.append("an entry without points overwrites `%s` (expected exactly the corner defaults, indices 0 .. addition_points.size())" % shape[:70])
     # unit conversion
     conv = [x for x in F.walk() if x.get("k") == "CompoundAssignOperator" and x.get("op") == "*=" and R(x["c"][0]) in ("coordinate_0", "coordinate_1")]
     okconv = len(conv) == 2
